@@ -528,6 +528,7 @@ func cmdCheck(id, tier string) int {
 	for _, l := range plan.Legs {
 		totalW += l.Weight
 	}
+	remW := totalW
 	for _, leg := range plan.Legs {
 		if tier == "quick" {
 			scale := float64(envInt("VERIF_QUICK_SCALE_PCT", 100)) / 100
@@ -535,7 +536,19 @@ func cmdCheck(id, tier string) int {
 			if n < 1 {
 				n = 1
 			}
-			o.runLeg(id, leg, baseSeed, n, start.Add(quickCap), agg)
+			// the quick tier is bounded by counts; the wall-clock cap only matters on a busy
+			// machine, and there every leg keeps its weight's share of what is left of the
+			// cap, so that the later legs are thinned rather than skipped
+			left := quickCap - time.Since(start)
+			if left < 5*time.Second {
+				left = 5 * time.Second
+			}
+			legCap := time.Duration(float64(left) * leg.Weight / remW)
+			remW -= leg.Weight
+			if remW < 0.0001 {
+				remW = 0.0001
+			}
+			o.runLeg(id, leg, baseSeed, n, time.Now().Add(legCap), agg)
 		} else {
 			share := time.Duration(float64(budget) * leg.Weight / totalW)
 			count := 0
